@@ -27,6 +27,13 @@ def lines_for(tier, rng):
     alphabet = [chr(c) for c in range(32, 127) if c != 92] + ["\\\\", "\\n", "\\xc3\\xa9", "\\xe2\\x82\\xac", "\\x01", "\\x7f"]
     for _ in range(800 if tier == "quick" else 8000):
         out.append("".join(rng.choice(alphabet) for _ in range(rng.below(30))))
+    # long lines of multi-byte characters at every alignment: any code that cuts, pads or indexes a line at a byte offset
+    # (log truncation, buffers, fixed-size reads) meets a character boundary problem only when a character straddles that offset
+    for w in ("set k", "get", "bogus", "auth adm", "set-safe k 1", "watch", "keys", "use-db t"):
+        for ch in ("\\xc3\\xa9", "\\xe2\\x82\\xac", "\\xf0\\x9f\\x98\\x80"):
+            for off in range(4):
+                for count in (20, 40, 70, 130, 300, 700, 2100, 9000):
+                    out.append(f"{w} " + "a" * off + ch * count)
     return out
 
 class C10(Spec):
@@ -34,7 +41,7 @@ class C10(Spec):
     lean_module = "NunVerif.Props.C10"
     theorems = ["Nun.C10_panic_sites_justified", "Nun.C10_replicate_needs_selection"]
     rule = ("every command word (and unknown ones) x 0-1 arguments exhaustively and 2-5 arguments seeded from the quantifier's token alphabet "
-            "(empty, non-numeric, i32/u64/u128 boundaries, $$ keys, ';', newline, 600-byte token, non-ASCII), plus random printable/UTF-8 strings; "
+            "(empty, non-numeric, i32/u64/u128 boundaries, $$ keys, ';', newline, 600-byte token, non-ASCII), plus random printable/UTF-8 strings, plus long lines (20-9000 characters) of 2-, 3- and 4-byte UTF-8 characters at every byte alignment (so that a character straddles every possible byte offset); "
             "each line runs on an unauthenticated, an admin and an arbiter-database session, followed by a probe set/get from another client; "
             "catch_unwind around process_request, lock-poison flags in the dump. non-trivial = line is not answered 'unknown command'; distinct by trace hash")
 
